@@ -58,7 +58,56 @@ CYCLE_CORPUS = [
     ("through-switch", [["R", "{{#switch:a|a={{r}}|b=2}}", False]], "{{r}}"),
     ("through-named-arg", [["R", "{{r|k={{r}}}}", False]], "{{r}}"),
     ("deep-chain", [["D", "{{d|{{{1|}}}x}}", False]], "{{d}}"),
+    ("through-arg-of-wrapper", [["A", "{{wrap|{{a}}}}", False], ["Wrap", "{{{1}}}", False]], "{{a}}"),
+    ("through-arg-branching", [["A", "{{wrap|{{a}}{{a}}}}", False], ["Wrap", "{{{1}}}", False]], "{{a}}"),
+    ("through-named-arg-branching", [["A", "{{wrap|k={{a}}x{{a}}}}", False], ["Wrap", "[{{{k}}}]", False]], "{{a}}{{a}}"),
+    ("through-two-wrappers", [["A", "{{w1|{{w2|{{a}}{{a}}}}}}", False], ["W1", "{{{1}}}", False], ["W2", "<{{{1}}}>", False]], "{{a}}"),
 ]
+
+FRAME_POOL = ["Tt", "Template:a", "Template:b", "Template:wrap", "TEMPLATE_NAME", "ARGVAL-1", "ARGVAL-2", "ARGVAL-k", "#if", "#switch",
+              "ARG-NAME", "ARG-DEFVAL", "[[link]]", "ARGNAME", "TEMPLATE_FN", "ARGVAL-NO-TEMPLATE"]
+
+
+def coq_frame(f):
+    from lib import cstr, cN
+    fixed = {"Tt": "FTitle", "TEMPLATE_NAME": "FTemplateName", "ARGNAME": "FArgName", "TEMPLATE_FN": "FTemplateFn",
+             "ARG-NAME": "FArgName2", "ARG-DEFVAL": "FArgDefval", "ARGVAL-NO-TEMPLATE": "FArgvalNoTemplate", "[[link]]": "FLink"}
+    if f in fixed:
+        return fixed[f]
+    if f.startswith("Template:"):
+        return "FTemplate %s" % cstr(f[9:])
+    if f.startswith("ARGVAL-"):
+        k = f[7:]
+        return "FArgVal (%s)" % ("KInt %s" % cN(int(k)) if k.isdigit() else "KStr %s" % cstr(k))
+    return "FFn %s" % cstr(f)
+
+
+def gen_stack(rng):
+    base = [rng.choice(FRAME_POOL) for _ in range(rng.randint(0, 6))]
+    pat = [rng.choice(FRAME_POOL) for _ in range(rng.randint(1, 4))]
+    reps = rng.choice([0, 1, 2, 2, 3])
+    tail = [rng.choice(FRAME_POOL) for _ in range(rng.choice([0, 0, 0, 1]))]
+    return ["Tt"] + base + pat * reps + tail
+
+
+def check_detector(run):
+    """The loop detector itself (a pure function on the path) against Model.Expand.detect_loop."""
+    from lib import clist
+    stacks = [gen_stack(run.rng) for _ in range(3000 if run.tier == "quick" else 40000)]
+    res = lib.run_impl("detect_loop", [{"stacks": stacks[i:i + 500]} for i in range(0, len(stacks), 500)])
+    outs = [o for r in res for o in r["outs"]]
+    coq_cases = []
+    for s, o in zip(stacks, outs):
+        run.count(["stack", s], len(s) >= 4, "detector")
+        coq_cases.append("(%s, %s)" % (clist(s, coq_frame, "frame"), "true" if o else "false"))
+    bad, errs = lib.coq_eval_failing("c05d", ["Base.Str", "Model.ArgViews", "Model.Expand"], "list frame * bool", coq_cases,
+                                     "fun '(s, o) => Bool.eqb (detect_loop s) o", extra_defs="Open Scope N_scope.\n")
+    for e in errs:
+        run.correspondence_break("model evaluation failed (detector)", None, error=e)
+    for b in bad:
+        run.correspondence_break("Model.Expand.detect_loop disagrees with detect_expand_template_loop",
+                                 {"stack": stacks[b], "impl": outs[b]})
+
 
 
 def run(run):
@@ -103,6 +152,7 @@ def run(run):
             run.property_failure("cycle-corpus:%s:no-inband-error" % c["_name"],
                                  "cycle %s: no error element / message: %r" % (c["_name"], r["out"][:300]),
                                  {k: c[k] for k in ("lib", "page", "opts", "title")})
+    check_detector(run)
     run_cyclic(run, cases)
     # ---- (b)(c) parser functions
     from wikitextprocessor.parserfns import PARSER_FUNCTIONS
